@@ -45,7 +45,9 @@ def gen_script(rng):
     L.append('force_update always')
     L += qs
     L.append('counts')
-    L.append('close')
+    # a clean shutdown, or a process kill (no index file is written: every blob that took a fault is scanned at the
+    # next start; what the scan cannot serve has to be in the quarantine directory)
+    L.append(rng.choice(['close', 'close', 'drop']))
     L.append('open')
     L += qs
     L.append('counts')
@@ -121,10 +123,39 @@ def gen_delete_script(rng):
     return '\n'.join(L) + '\n'
 
 
+def gen_torn_script(rng):
+    """A LARGE record is written short (its header is complete, most of its data is missing), the fault clears, a few
+    small records are acknowledged behind the torn bytes, and the process is killed before any index file is written:
+    at the next start the acknowledged records are served, or the blob is in the quarantine directory -- a scan that
+    takes the torn record for the end of the blob loses them silently."""
+    g = Gen(rng, queries=(), maint=0.2, restart=0.0, deletes=0.1, bg=0.0, nops=rng.randrange(2, 7), dup=1, metas=False)
+    L = g.build().strip().split('\n')
+    qs = ['R %s' % k for k in g.keys]
+    L.append(rng.choice(['nop', 'close_active']))
+    seed = 4000
+    L.append('W %s 5 - 5 %d' % (g.keys[0], seed))
+    L.append('fail append .blob 0 short:%d' % rng.choice([61, 69, 80, 150, 400]))
+    seed += 1
+    L.append('W %s 6 - %d %d' % (rng.choice(g.keys), rng.choice([2000, 5000, 20000]), seed))
+    L += qs
+    L.append('clearfail')
+    L.append('quiesce')
+    for _ in range(rng.choice([1, 2, 3])):
+        seed += 1
+        L.append('W %s %d - 5 %d' % (rng.choice(g.keys), rng.choice([7, 9]), seed))
+    L += qs
+    L.append('counts')
+    L.append('drop')
+    L.append('open')
+    L += qs
+    L.append('counts')
+    return '\n'.join(L) + '\n'
+
+
 def gen(tier, rng):
     n = 260 if tier == 'quick' else 6000
     return [('fault%05d' % i, gen_script(rng)) for i in range(n)] + [('create%05d' % i, gen_create_script(rng)) for i in range(n // 3)] + \
-           [('delete%05d' % i, gen_delete_script(rng)) for i in range(n // 5)]
+           [('delete%05d' % i, gen_delete_script(rng)) for i in range(n // 5)] + [('torn%05d' % i, gen_torn_script(rng)) for i in range(n // 8)]
 
 
 def spec_for_acknowledged(lines, io, drop=()):
@@ -162,7 +193,7 @@ def oracle(lines, io, spec=None):
     fault = lines[fi]
     aspec, amodel = spec_for_acknowledged(lines, io)
     ci = lines.index('clearfail')
-    close_i = lines.index('close', ci)
+    close_i = next(i for i in range(ci, len(lines)) if lines[i] in ('close', 'drop'))
     open_i = close_i + 1
     hit = any(' Err ' in o for o in io[fi:ci])
     bg_fault = not hit
